@@ -347,7 +347,7 @@ func realise(c *hx.Case, tree *ast.Body) []implBody {
 
 func TestC04_Laws(t *testing.T) {
 	hx.Run(t, "C04", "Laws", 8000,
-		"logical body (literal attributes, blocks with 0..2 labels, depth<=2; attribute names, block types and labels from pairwise disjoint pools) realised as native, JSON (any admissible encoding), MergeBodies of 2-3 files of mixed syntax, and dynblock.Expand of the native body; random schema (required attributes, absent names, label-count mismatches for the non-JSON bodies) split into 2..4 disjoint parts; oracle = reference body model: (L1) Content, (L2) PartialContent + complement on the remainder, (L3) chain of partial steps == union schema, JustAttributes; non-trivial = matching and non-matching items both present, >=2 non-empty schema parts, and a required-missing / mismatch / leftover condition; distinct by (tree dump, schema)",
+		"logical body (literal attributes, blocks with 0..2 labels, depth<=2; attribute names, block types and labels from pairwise disjoint pools) realised as native, JSON (any admissible encoding), MergeBodies of 2-3 files of mixed syntax, and dynblock.Expand of the native body; random schema (required attributes, absent names, label-count mismatches for the non-JSON bodies) split into 2..4 disjoint parts; oracle = reference body model: (L1) Content, (L2) PartialContent + complement on the remainder, (L3) chain of partial steps == union schema, JustAttributes, (L4) reuse: repeated and different requests on one remaining body object and on the original body give what the immutable model gives; non-trivial = matching and non-matching items both present, >=2 non-empty schema parts, and a required-missing / mismatch / leftover condition; distinct by (tree dump, schema)",
 		func(c *hx.Case) {
 			t := c.T
 			tree := drawStructBody(t, 2, false)
@@ -480,6 +480,36 @@ func TestC04_Laws(t *testing.T) {
 				}
 				compareContent(c, im.name+" chain", &hcl.BodyContent{Attributes: gotAttrs, Blocks: gotBlocks}, mExh, 0)
 				_ = acc
+				// L4 reuse: processing a body (or a remaining body) does not modify it - the same
+				// remaining body object answers a second, different or repeated request as the
+				// model (which is immutable) says
+				if len(parts) >= 2 {
+					var r1 hcl.Body
+					c.Guard(im.name+" reuse PartialContent", func() { _, r1, _ = im.body.PartialContent(toHCLSchema(parts[0])) })
+					_, v1 := ref.NewView(tree, false).Partial(parts[0])
+					order := []int{1, 1}
+					if len(parts) >= 3 {
+						order = []int{rapid.IntRange(1, len(parts)-1).Draw(t, "reuse_a"), rapid.IntRange(1, len(parts)-1).Draw(t, "reuse_b"), rapid.IntRange(1, len(parts)-1).Draw(t, "reuse_c")}
+					}
+					for step, pi := range order {
+						var pc *hcl.BodyContent
+						var pd hcl.Diagnostics
+						c.Guard(im.name+" reuse PartialContent", func() { pc, _, pd = r1.PartialContent(toHCLSchema(parts[pi])) })
+						mc, _ := v1.Partial(parts[pi])
+						if pd.HasErrors() != mc.Err {
+							c.Failf("L4-reuse-error-flag", "%s: request %d on the same remaining body (schema part %d): error=%v (%s), model %v", im.name, step, pi, pd.HasErrors(), diagStr(pd), mc.Err)
+						}
+						compareContent(c, fmt.Sprintf("%s reuse step %d", im.name, step), pc, mc, 0)
+					}
+					// and the original body still answers the exhaustive request as before
+					var again *hcl.BodyContent
+					var adiags hcl.Diagnostics
+					c.Guard(im.name+" Content (again)", func() { again, adiags = im.body.Content(toHCLSchema(S)) })
+					if adiags.HasErrors() != mExh.Err {
+						c.Failf("L4-reuse-error-flag", "%s: Content on the original body after other requests: error=%v (%s), model %v", im.name, adiags.HasErrors(), diagStr(adiags), mExh.Err)
+					}
+					compareContent(c, im.name+" Content (again)", again, mExh, 0)
+				}
 			}
 			hasMatch := len(mExh.Attrs)+len(mExh.Blocks) > 0
 			hasLeft := len(leftA)+len(leftB) > 0
